@@ -151,7 +151,8 @@ void harness_static_ctx(void) {
     __CPROVER_assert(r2 == 0 && verif_illegal_count == 1, "schnorrsig_sign32 on the static context: one illegal callback, failure");
     { secp256k1_xonly_pubkey xp[1]; unsigned char agg[64]; secp256k1_pedersen_commitment pc; secp256k1_keypair kp2;
       memcpy(&xp[0], &in.xpk, sizeof(xp[0])); memcpy(agg, in.sig64, 64);
-      verif_illegal_count = 0; r2 = secp256k1_schnorrsig_aggverify(&c2, xp, in.a32, 1, agg, 64);
+      { size_t na = (size_t)(in.f2 & 1);          /* also the empty aggregate (n = 0, 32 bytes): the context requirement does not depend on n */
+      verif_illegal_count = 0; r2 = secp256k1_schnorrsig_aggverify(&c2, xp, in.a32, na, agg, 32 * (na + 1)); }
       __CPROVER_assert(r2 == 0 && verif_illegal_count == 1, "schnorrsig_aggverify on the static context: one illegal callback, failure");
       verif_illegal_count = 0; r2 = secp256k1_pedersen_commit(&c2, &pc, in.b32, in.v, &in.gen);
       __CPROVER_assert(r2 == 0 && verif_illegal_count == 1, "pedersen_commit on the static context: one illegal callback, failure");
